@@ -713,7 +713,7 @@ theorem nat_vs_val (v : Val) : cmpNaT .nat (.val v) = if v.rank ≤ 2 then .gt e
   · rw [← h]; simp
   · rw [Nat.compare_eq_gt.2 h, if_pos (by omega)]; rfl
 
-/-- antisymmetry with the missing date among the values (false of the code before fix 452a540: `cmp` of two
+/-- antisymmetry with the missing date among the values (false of the code before fix a949734: `cmp` of two
 `np.datetime64('NaT')` was -1 both ways) -/
 theorem cmpNaT_antisymm (a b : ValN) : cmpNaT a b = (cmpNaT b a).swap := by
   cases a <;> cases b <;> simp only [cmpNaT]
@@ -722,7 +722,7 @@ theorem cmpNaT_antisymm (a b : ValN) : cmpNaT a b = (cmpNaT b a).swap := by
   · rename_i v; rw [swap_compare 2 v.rank]; cases compare v.rank 2 <;> rfl
   · exact cmp_antisymm _ _
 
-/-- transitivity with the missing date among the values (false of the code between 7a44481 and fix 72de39d: `cmp(t, NaT) == 0 ==
+/-- transitivity with the missing date among the values (false of the code between 7a44481 and fix cceb13a: `cmp(t, NaT) == 0 ==
 cmp(NaT, t')` for all datetimes) -/
 theorem cmpNaT_trans (a b c : ValN) : (cmpNaT a b).isLE → (cmpNaT b c).isLE → (cmpNaT a c).isLE := by
   have f1 : ∀ v : Val, (cmpNaT .nat (.val v)).isLE = true → 2 < v.rank := by
